@@ -8,7 +8,7 @@ var notDecided = map[string][]string{
 	"C03": {"that the order book built by types.BidsByPrice is a regrouping of the stored bids (assumed contract, BOUNDED conformance test)", "refunds of a batch settlement are non-negative (trusted-ensures of CalculateBatchAllocation; BOUNDED conformance test under C01/C04)"},
 	"C01": {"coins sent to an escrow address by third parties (excluded by the statement, A2)", "refunds of a batch settlement are non-negative (trusted-ensures of CalculateBatchAllocation, BOUNDED conformance test)"},
 	"C04": {"refunds of a batch settlement are non-negative, i.e. nobody pays more than they reserved (trusted-ensures of CalculateBatchAllocation, BOUNDED conformance test)"},
-	"C07": {"extreme prices or amounts beyond mathematical integers: 256/315-bit overflow panics of cosmossdk.io/math (A3)"},
+	"C07": {"extreme prices or amounts beyond mathematical integers: 256/315-bit overflow panics of cosmossdk.io/math (A3) -- observed on the real code: a worth bid of 10^59 paying coins against a candidate price of 10^-18 makes types.Match, and so BeginBlocker, panic with 'Int overflow' (DESIGN.md section 13 item 33)"},
 	"C13": {"the exact-rational reading of the extension rule inside the 10^-18 rounding band; the rule is proved as the code computes it"},
 	"C14": {"determinism of the SDK, CometBFT and protobuf layers (A7)"},
 	"C15": {"the composition import(export(s)) = s as one statement (the three contracts are proved; the composition and the counting lemma are the written argument of DESIGN.md section 13 item 12)", "JSON/proto encoding of the genesis file; other modules' genesis"},
